@@ -1061,7 +1061,40 @@ class Interp:
         after.conds = after.conds[:len(s.conds)] if after is not s else after.conds
         return [(after, ("tuple", ()))]
 
+    def _find_while_let_next(self, e):
+        """`while let Some(p) = it.next() { body }`  =  loop { if let Some(p) = next(it) { body } else { break } }"""
+        if not isinstance(e, dict):
+            return None
+        k = e.get("k")
+        if k == "If" and e["cond"].get("k") == "LetExpr":
+            le = e["cond"]
+            call = le["e"]
+            while call.get("k") in ("Use", "NeverToAny"):
+                call = call["e"]
+            if call.get("k") == "Call" and "d" in call.get("f", {}) and le["pat"].get("k") == "Variant" and le["pat"].get("vname") == "Some":
+                return call, le["pat"], e["then"]
+            return None
+        if k == "Block":
+            b = e["b"]
+            if "expr" in b and not b["stmts"]:
+                return self._find_while_let_next(b["expr"])
+            if len(b["stmts"]) == 1 and b["stmts"][0]["k"] == "Expr" and "expr" not in b:
+                return self._find_while_let_next(b["stmts"][0]["e"])
+        if k in ("Use", "NeverToAny"):
+            return self._find_while_let_next(e["e"])
+        return None
+
     def e_Loop(self, frame, e, st):
+        wl = self._find_while_let_next(e["body"])
+        if wl is not None:
+            call, pat, body = wl
+            nm = frame.crate.defj(call["f"]["d"]).get("name")
+            if nm == "next" and call["args"]:
+                out = []
+                for (s, itv) in self.ev(frame, call["args"][0], st):
+                    itv = self.load_ref(s, itv)
+                    out.extend(self.run_loop(frame, s, itv, pat["subs"][0]["p"] if pat["subs"] else None, body, e))
+                return out
         # generic loop: recognise `loop { match next(it) { Some(p) => body, None => break } }`
         inner = self._find_next_match(e["body"])
         if inner is not None and inner["scrut"]["k"] == "Call":
